@@ -79,7 +79,8 @@ Record lrec := {
   l_pre : list ev;                (* observable effects before the signal (all of them when no death) *)
   l_post : list ev;               (* observable effects after it *)
   l_obs : obs;
-  l_waiter : option wrec          (* double launch: what the second process did meanwhile *)
+  l_waiter : option wrec;         (* double launch: what the second process did meanwhile *)
+  l_again : bool                  (* a second death: SIGKILL before the effects of l_post were followed by another *)
 }.
 
 (* exception contexts possible between effect k-1 and effect k: that of either neighbour, and - when the
@@ -103,6 +104,27 @@ Definition check_at (v : variant) (d : dir) (r : lrec) (g : sig) (c : ctx) (k : 
   && list_eqb ev_eqb (evs (on_signal v g c (run_effs pre (boot d)))) (l_post r)
   && obs_eqb (launch v d (l_out r) (Some (g, k, c))) (l_obs r).
 
+(* ---- a second death: the observed effects after the first signal are a prefix (up to silent steps) of
+   what the model does after it, and the directory is the one the model leaves when it stops there *)
+Fixpoint first_some {A B} (f : A -> option B) (l : list A) : option B :=
+  match l with
+  | [] => None
+  | x :: l' => match f x with Some y => Some y | None => first_some f l' end
+  end.
+
+Definition check_at2 (v : variant) (d : dir) (r : lrec) (g : sig) (c : ctx) (k : nat) : option dir :=
+  let t := runner v (l_out r) (boot d) in
+  let pre := firstn k (map snd t) in
+  if list_eqb ev_eqb (evs pre) (l_pre r) && existsb (ctx_eqb c) (ctx_at t k) then
+    let h := on_signal v g c (run_effs pre (boot d)) in
+    match find (fun j => list_eqb ev_eqb (evs (firstn j h)) (l_post r)
+                         && obs_eqb (launch2 v d (l_out r) (g, k, c) j) (l_obs r))
+               (List.seq 0 (S (length h))) with
+    | Some j => Some (launch2 v d (l_out r) (g, k, c) j)
+    | None => None
+    end
+  else None.
+
 (* ---- double launch: the second process (w) dies before it gets the lock, then the first goes on *)
 Definition check_wait (v : variant) (d : dir) (w : wrec) (k : nat) : bool :=
   let '(g, c) := w_death w in
@@ -123,7 +145,7 @@ Definition check_rest (v : variant) (d : dir) (r : lrec) (ow : outcome) (dw : de
   && obs_eqb (double v d (l_out r) ow dw (Some (g, k, c))) (l_obs r).
 
 Definition check_double (v : variant) (d : dir) (r : lrec) (w : wrec) : option dir :=
-  if d_done d then None else
+  if d_done d || l_again r then None else
   let '(gw, cw) := w_death w in
   match find (check_wait v d w) (List.seq 0 5) with
   | None => None
@@ -155,6 +177,7 @@ Definition check_launch (v : variant) (d : dir) (r : lrec) : option dir :=
          && obs_eqb (launch v d (l_out r) None) (l_obs r)
       then Some (launch v d (l_out r) None) else None
   | Some (g, c) =>
+      if l_again r then first_some (check_at2 v d r g c) (List.seq 0 (S (length (trace v (l_out r) d)))) else
       match find (check_at v d r g c) (List.seq 0 (S (length (trace v (l_out r) d)))) with
       | Some k => Some (launch v d (l_out r) (Some (g, k, c)))
       | None => None
